@@ -75,7 +75,7 @@ for n, pr, to, mem in ((1, WK, 400, 6), (2, WK, 900, 14), (3, WKX, 900, 10), (4,
       timeout=to, mem_gb=mem, stubs=CONTAINS)
 H("c01_separator_scalars", "writer.rs", {"C01": X}, ["writer::Writer::need_separator", "writer::Writer::need_end_separator", "writer::Writer::write_object"],
   "null, true/false, all i16 integers, references (id u8): separator predicates agree with the first/last byte write_object emits", timeout=900, mem_gb=8)
-H("c01_separator_name", "writer.rs", {"C01": X}, ["writer::Writer::need_separator", "writer::Writer::need_end_separator", "writer::Writer::write_name"],
+H("c01_separator_name", "writer.rs", {"C01": Q, "C03": Q, "C14": Q}, ["writer::Writer::need_separator", "writer::Writer::need_end_separator", "writer::Writer::write_name"],
   "all 1-byte names: separator predicates agree with the first/last byte emitted", timeout=900, mem_gb=8)
 H("c01_hexstr_2", "writer.rs", WK, ["writer::Writer::write_string"], "all hex strings of 2 bytes", timeout=400, mem_gb=6)
 H("c01_int_i16", "writer.rs", WK, ["writer::Writer::write_object"], "all i16 integers read back by a decimal reader", timeout=600, mem_gb=8)
@@ -123,16 +123,21 @@ H("c05_pkcs5_roundtrip", "pkcs5.rs", {"C05": Q, "C06": Q}, ["encryption::pkcs5::
   "all 16-byte blocks x all pad positions 0..=15", timeout=400, mem_gb=4)
 H("c05_pkcs5_unpad_spec", "pkcs5.rs", {"C05": Q, "C06": Q}, ["encryption::pkcs5::Pkcs5::raw_unpad"], "all 16-byte blocks: accepted iff PKCS#5-well-formed", timeout=400, mem_gb=4)
 H("c06_rc4_key_vector", "rc4.rs", {"C05": Q, "C06": Q}, ["encryption::rc4::Rc4::new", "encryption::rc4::Rc4::encrypt", "encryption::rc4::Rc4::decrypt", "encryption::rc4::Rc4::apply_keystream"],
-  "key 'Key' (published test vector), all 8-byte plaintexts: ciphertext = plaintext XOR published keystream; decrypt inverts encrypt", timeout=1200, mem_gb=20, fs_size=300)
-H("c06_rc4_ref_key40", "rc4.rs", {"C06": X}, ["encryption::rc4::Rc4::new"], "one concrete 40-bit key vs reference RC4", timeout=900, fs_size=300)
-H("c06_rc4_ref_key128", "rc4.rs", {"C06": X}, ["encryption::rc4::Rc4::new"], "one concrete 128-bit key vs reference RC4", timeout=900, fs_size=300)
+  "key 'Key' (published test vector), all 8-byte plaintexts: ciphertext = plaintext XOR published keystream; decrypt inverts encrypt", timeout=1200, mem_gb=12, fs_size=300)
+H("c06_rc4_ref_key40", "rc4.rs", {"C06": T, "C05": T}, ["encryption::rc4::Rc4::new", "encryption::rc4::Rc4::apply_keystream"], "one concrete 40-bit key, all 6-byte plaintexts vs an independent reference RC4", timeout=1200, mem_gb=10, fs_size=300)
+H("c06_rc4_ref_key128", "rc4.rs", {"C06": T, "C05": T}, ["encryption::rc4::Rc4::new", "encryption::rc4::Rc4::apply_keystream"], "one concrete 128-bit key, all 6-byte plaintexts vs an independent reference RC4", timeout=1200, mem_gb=10, fs_size=300)
 H("c06_rc4_ref_symkey1", "rc4.rs", {"C06": X}, ["encryption::rc4::Rc4::new"], "every 1-byte key", timeout=2700, mem_gb=16, fs_size=300)
 H("c06_rc4_ref_symkey2", "rc4.rs", {"C06": X}, ["encryption::rc4::Rc4::new"], "every 2-byte key", timeout=2700, mem_gb=16, fs_size=300)
 for v, d in (("rc4_key40", "RC4, 40-bit file key"), ("rc4_key128", "RC4, 128-bit file key"), ("aes_key128", "AESV2 (adds 'sAlT'), 128-bit file key")):
-    H(f"c06_alg1_{v}", "crypt_filters.rs", {"C06": X}, ["encryption::crypt_filters::Rc4CryptFilter::compute_key", "encryption::crypt_filters::Aes128CryptFilter::compute_key"],
-      f"Algorithm 1, {d}; MD5 replaced by the recording model", timeout=900, models=MD5M, stubs=["md-5 -> transparent recording hash model"])
+    H(f"c06_alg1_{v}", "crypt_filters.rs", {"C06": Q}, ["encryption::crypt_filters::Rc4CryptFilter::compute_key", "encryption::crypt_filters::Aes128CryptFilter::compute_key"],
+      f"Algorithm 1, {d}: all file keys x all object numbers (u32) x all generations (u16): the MD5 input is key || id[0..3] LE || gen[0..2] LE (|| 'sAlT'), one digest, truncated to min(n+5,16); MD5 replaced by the recording model", timeout=600, mem_gb=6, models=MD5M, stubs=["md-5 -> transparent recording hash model"])
+A2 = ["encryption::algorithms::PasswordAlgorithm::compute_file_encryption_key_r4", "encryption::Permissions::p_value"]
+for v, d in (("r2_pw5", "revision 2, 5-byte password"), ("r3_key40_pw0", "revision 3, 40-bit key, empty password"), ("r3_key128_pw33", "revision 3, 128-bit key, 33-byte password (truncated to 32)"), ("r4_key128_pw5", "revision 4, 128-bit key, 5-byte password, EncryptMetadata symbolic")):
+    H(f"c06_alg2_{v}", "algorithms.rs", {"C06": X}, A2,
+      f"Algorithm 2, {d}: all passwords x all 32-byte O x all P x all 8-byte file ids: MD5 input, number of MD5 rounds (1+50) and truncations as the standard prescribes; MD5 replaced by the recording model",
+      timeout=1500, mem_gb=12, models=MD5M, stubs=["md-5 -> transparent recording hash model", "std::hash::RandomState::new -> fixed keys"] + LS)
 H("c05_identity_filter", "crypt_filters.rs", {"C05": Q}, ["encryption::crypt_filters::IdentityCryptFilter"], "all 4-byte data, all 5-byte keys: encrypt and decrypt are the identity", timeout=300, mem_gb=4, models=MD5M)
-H("c05_rc4_filter_roundtrip", "crypt_filters.rs", {"C05": X}, ["encryption::crypt_filters::Rc4CryptFilter::encrypt"], "concrete key, all 6-byte data", timeout=1200, models=MD5M, fs_size=300)
+H("c05_rc4_filter_roundtrip", "crypt_filters.rs", {"C05": T}, ["encryption::crypt_filters::Rc4CryptFilter::encrypt", "encryption::crypt_filters::Rc4CryptFilter::decrypt"], "concrete 10-byte object key, all 6-byte data: decrypt(encrypt(x)) == x", timeout=1500, mem_gb=12, models=MD5M, fs_size=300)
 H("c06_permissions_p_value", "encryption.rs", {"C06": Q}, ["encryption::Permissions::p_value"], "all 2^64 bit patterns vs ISO 32000-1 Table 22 reserved bits", timeout=300, mem_gb=4)
 
 # =============================== C02 / C07 / C12 / C13 / C15: measured negative results ==========
